@@ -331,6 +331,21 @@ func concCase(seed uint64, idx int, flush bool) *CaseSpec {
 				}
 			}(c)
 		}
+		// network instances are added while the traffic runs (they stay empty: what matters is that
+		// the lookup every RPC makes and the registration of a new instance are ordered)
+		aux.Add(1)
+		go func() {
+			defer aux.Done()
+			for i := 0; i < 40; i++ {
+				select {
+				case <-stop:
+					return
+				default:
+				}
+				h.S.AddNetworkInstance(fmt.Sprintf("DYN%d", i))
+				time.Sleep(500 * time.Microsecond)
+			}
+		}()
 		// readers and flushers
 		for g := 0; g < 2; g++ {
 			aux.Add(1)
@@ -487,5 +502,8 @@ func init() {
 		Serial:   true,
 		Atomic:   true,
 	}
-	props["C11"] = &PropSpec{Mode: "conc", Extra: []string{"gap", "eofdrain"}, Diffs: []string{"conc", "refs", "hang", "crash", "add.", "del.", "ents", "pend"}, Monitors: []string{"c11", "c03", "c01", "c02"}}
+	// "cut": a session whose client disappears part-way through a request leaves goroutines of its
+	// RPC behind; what they still hold must not wedge the RPCs of other sessions (a deadlock that
+	// needs the departed session and a later one)
+	props["C11"] = &PropSpec{Mode: "conc", Extra: []string{"gap", "eofdrain", "cut"}, Diffs: []string{"conc", "refs", "hang", "crash", "add.", "del.", "ents", "pend"}, Monitors: []string{"c11", "c03", "c01", "c02"}}
 }
